@@ -1,6 +1,11 @@
 package varmq
 
-import "github.com/goptics/varmq/utils"
+import (
+	"encoding/json"
+	"reflect"
+
+	"github.com/goptics/varmq/utils"
+)
 
 // White-box accessors for the differential tie (overlay only).
 
@@ -30,6 +35,28 @@ func VerifRoundTrip(id string, status uint32, payload any) (bytes []byte, pid st
 	}
 	pj := v.(*job[any])
 	return bytes, pj.ID(), pj.Status(), pj.Data(), nil
+}
+
+// VerifRoundTripTyped does the same for a worker whose payload type is T (not `any`): what the worker function
+// receives must be what a JSON round trip of the submitted value gives.
+func VerifRoundTripTyped[T any](id string, status uint32, payload T) bool {
+	j := newJob(payload, jobConfigs{Id: id})
+	j.status.Store(status)
+	bytes, err := j.Json()
+	if err != nil {
+		return false
+	}
+	v, perr := parseToJob[T](bytes)
+	if perr != nil {
+		return false
+	}
+	pj := v.(*job[T])
+	var want T
+	b, _ := json.Marshal(payload)
+	if json.Unmarshal(b, &want) != nil {
+		return false
+	}
+	return pj.ID() == id && reflect.DeepEqual(pj.Data(), want)
 }
 
 func VerifParseStatus(envelope []byte) (string, error) {
